@@ -251,7 +251,6 @@ theorem filter_single_of_find {vs : List Int} {q : Int → Bool} {lv : Int}
 
 theorem splitStep_lin {constant : List Int} {linear : List (Int × Expr w)} {e : Expr w}
     {part : Part w} (hp : part ∈ e) {lv : Int} {l : Expr w}
-    (hall : part.vars.all (fun v => constant.contains v || mHas linear v) = true)
     (hlen : (part.vars.filter (fun x => !constant.contains x)).length = 1)
     (hfind : part.vars.find? (fun x => !constant.contains x) = some lv)
     (hl : mGet linear lv = some l) :
@@ -358,7 +357,7 @@ theorem splitFold_spec (constant : List Int) (linear : List (Int × Expr w)) (e0
                   · exact Or.inl hil2
                   · simp only [List.mem_singleton] at hil2
                     subst hil2
-                    exact Or.inr (splitStep_lin hpe0 hcond.1 hcond.2 hfind hl)
+                    exact Or.inr (splitStep_lin hpe0 hcond.2 hfind hl)
                 · exact Or.inr hil1
         · have hacc1 : acc1 = (acc.1, acc.2.1 ++ [part], acc.2.2) := by cases hstep; rfl
           subst hacc1
